@@ -206,7 +206,7 @@ func buildMalformed(seed int64) (*Scenario, error) {
 		// RCD-e with the 65th signature byte altered: still valid above the activation, another entry hash
 		e2 := cp(e)
 		e2.ExtIDs[2][64] ^= 0x01
-		add(hh, want2(want, hh), fmt.Sprintf("RCD-e signed at %d, recovery byte altered", hh), e2)
+		add(hh, want, fmt.Sprintf("RCD-e signed at %d, recovery byte altered", hh), e2)
 		// unknown RCD type
 		e3 := cp(e)
 		e3.ExtIDs[1][0] = 0x02
@@ -234,5 +234,3 @@ func buildMalformed(seed int64) (*Scenario, error) {
 	_ = Bo
 	return b.Finish()
 }
-
-func want2(want int64, h uint32) int64 { return want }
